@@ -10,6 +10,10 @@ CONSTANTS
   MaxQ = 1
   MaxId = 1
   KaVals = {}
+  XQs = {}
+  XfrIds = {}
+  XfrAll = FALSE
+  QVars = {}
   EndKinds = {"eof", "wfail"}
   Frames <- MCFrames
 SPECIFICATION LiveSpec
